@@ -25,11 +25,25 @@ class JobInformation:
         if (self.path / f"{self.scriptname}.done").is_file():
             return JobState.DONE
         if (self.path / f"{self.scriptname}.failed").is_file():
+            # A job that is relaunched keeps the failure marker of its previous
+            # run until the new process removes it
+            if self.isrunning():
+                return JobState.RUNNING
             return JobState.ERROR
         if (self.path / f"{self.scriptname}.pid").is_file():
             return JobState.RUNNING
         else:
             return None
+
+    def isrunning(self) -> bool:
+        """Returns true if the process recorded in the pid file is alive"""
+        if not (self.path / f"{self.scriptname}.pid").is_file():
+            return False
+
+        import asyncio
+
+        process = self.getprocess()
+        return process is not None and asyncio.run(process.aio_isrunning())
 
     def getprocess(self):
         from experimaestro.connectors import Process
